@@ -17,6 +17,11 @@ import SioVerif.Model.Lifecycle
 namespace SioVerif.C06
 open SioVerif SioVerif.Life
 
+/-- the end of a transport is processed on a goroutine of its own on both Engine.IO sockets: the close callback can be entered by a
+    goroutine that holds transportMu (a write failing inside the upgrade's hand-over), and deciding whether the closed transport is the
+    current one takes that lock - done on the caller it would never return and the session would stay for ever (read from the source) -/
+theorem transport_close_off_the_caller : Gen.eioTransportCloseAsync = true := by decide
+
 /-- the source re-checks the connection's closed flag after storing the socket (so the theorems below are about the code as it is) -/
 theorem recheck_in_source : Gen.sioConnectRechecksClosed = true := by decide
 
